@@ -96,11 +96,12 @@ Print Assumptions sumsq3_zero.
 (* ---------- parallelism: the residual vanishes exactly when w1 x w2 = 0 ---------- *)
 Theorem C19_isparallel_residual : forall (L M : V6 R),
   tr_isparallel_res Rops L M = sqrt (normsq3 Rops (cross3 Rops (lw L) (lw M))) /\
-  (tr_isparallel_res Rops L M = 0 <-> cross3 Rops (lw L) (lw M) = (0,0,0)).
+  (tr_isparallel_res Rops L M = 0 <-> cross3 Rops (lw L) (lw M) = (0,0,0)) /\
+  tr_isparallel_thr Rops L M = 5 / 2251799813685248 * sqrt (normsq3 Rops (lw L)) * sqrt (normsq3 Rops (lw M)).
 Proof.
   intros L M. destruct_tuples. unf2.
   match goal with |- sqrt ?a = sqrt ?b /\ _ => assert (E : a = b) by ring; assert (Hb : 0 <= b) by sq_nonneg end.
-  split; [rewrite E; reflexivity|]. rewrite E. split.
+  split; [rewrite E; reflexivity|]. rewrite E. split; [split|reflexivity].
   - intros Hz. apply sqrt_eq_0 in Hz; [|exact Hb]. apply sumsq3_zero in Hz. destruct Hz as (?&?&?). tuple_eq ltac:(lra).
   - intros Hc. injection Hc; intros H1 H2 H3. rewrite H1, H2, H3. replace (0*0+0*0+0*0) with 0 by ring. apply sqrt_0.
 Qed.
@@ -109,9 +110,29 @@ Print Assumptions C19_isparallel_residual.
 Theorem C19_isparallel_rescaled : forall (p q d : V3 R) (k : R),
   tr_isparallel_res Rops (tr_PointDir Rops p d) (tr_PointDir Rops q (vscale3 Rops k d)) = 0.
 Proof.
-  intros. apply (proj2 (C19_isparallel_residual _ _)). destruct_tuples. unf2. tuple_eq ltac:(ring).
+  intros. apply (proj1 (proj2 (C19_isparallel_residual _ _))). destruct_tuples. unf2. tuple_eq ltac:(ring).
 Qed.
 Print Assumptions C19_isparallel_rescaled.
+
+(* the test |w1 x w2| < tol |w1| |w2| does not depend on the length of a direction (repaired by /repo b223bb8;
+   before it the right-hand side was the constant tol): both sides scale by k *)
+Theorem C19_isparallel_scale_invariant : forall (L M : V6 R) (k : R), 0 < k ->
+  tr_isparallel_res Rops (scale6 k L) M = k * tr_isparallel_res Rops L M /\
+  tr_isparallel_thr Rops (scale6 k L) M = k * tr_isparallel_thr Rops L M /\
+  (tr_isparallel_res Rops (scale6 k L) M < tr_isparallel_thr Rops (scale6 k L) M <->
+   tr_isparallel_res Rops L M < tr_isparallel_thr Rops L M).
+Proof.
+  intros L M k Hk.
+  assert (A : tr_isparallel_res Rops (scale6 k L) M = k * tr_isparallel_res Rops L M /\
+              tr_isparallel_thr Rops (scale6 k L) M = k * tr_isparallel_thr Rops L M).
+  { destruct_tuples. unf2. split.
+    - match goal with |- sqrt ?a = k * sqrt ?b => replace a with (k * k * b) by ring;
+        rewrite sqrt_mult_alt by nra; rewrite sqrt_square by lra; reflexivity end.
+    - match goal with |- _ * sqrt ?a * ?t = k * (_ * sqrt ?b * ?t) => replace a with (k * k * b) by ring;
+        rewrite sqrt_mult_alt by nra; rewrite sqrt_square by lra; ring end. }
+  destruct A as [A1 A2]. split; [exact A1 | split; [exact A2 |]]. rewrite A1, A2. split; intros H; nra.
+Qed.
+Print Assumptions C19_isparallel_scale_invariant.
 
 (* ---------- reciprocal product  l1 * l2  ---------- *)
 Definition recip_ref (L M : V6 R) : R := dot3 Rops (lw L) (lv M) + dot3 Rops (lv L) (lw M).
@@ -152,21 +173,30 @@ Print Assumptions C19_recip_scale_invariant.
 
 (* ---------- common perpendicular ---------- *)
 Definition cp_path (L M : V6 R) : Prop := pc_commonperp_0 Rops L M <= 0.     (* the parallel test is not taken *)
-Ltac nn_nz :=  (* from  c - sqrt e <= 0  with c > 0 :  0 < sqrt e,  e <> 0 *)
+(* the parallel test  |w1 x w2| < 10 eps |w1| |w2|  (relative since /repo b223bb8) NOT taken, with w1, w2 <> 0:
+   0 < sqrt(w.w) for both directions, then 0 < |w1 x w2| and (w1 x w2).(w1 x w2) <> 0 *)
+Ltac nn_nz :=
   repeat match goal with
-  | H : _ + -1 * ?s <= 0, Hss : ?s * ?s = ?e |- _ =>
-      lazymatch goal with _ : 0 < s |- _ => fail | _ => assert (0 < s) by lra; assert (e <> 0) by nra end
+  | Hss : ?s * ?s = ?e, Hne : ?e <> 0 |- _ =>
+      lazymatch goal with _ : 0 < s |- _ => fail
+      | _ => assert (0 < s) by (destruct (Req_dec s 0) as [Z|Z]; [exfalso; apply Hne; rewrite <- Hss, Z; ring | lra]) end
+  end;
+  repeat match goal with
+  | H : -1 * ?s + ?c * ?a * ?b <= 0, Hss : ?s * ?s = ?e |- _ =>
+      lazymatch goal with _ : 0 < s |- _ => fail
+      | _ => assert (0 < a * b) by (apply Rmult_lt_0_compat; assumption); assert (0 < s) by nra; assert (e <> 0) by nra end
   end.
 
 (* full statement (repaired by /repo ba1d83a): the result is a line (v.w = 0) with direction w1 x w2, orthogonal to both
    lines and meeting both (coplanar with each, directions not parallel) *)
-Theorem C19_commonperp : forall (L M : V6 R) (x y : V3 R), cp_path L M -> is_line L -> is_line M ->
+Theorem C19_commonperp : forall (L M : V6 R) (x y : V3 R), normsq3 Rops (lw L) <> 0 -> normsq3 Rops (lw M) <> 0 ->
+  cp_path L M -> is_line L -> is_line M ->
   let C := tr_commonperp Rops L M in
   is_line C /\ lw C = cross3 Rops (lw L) (lw M) /\ dot3 Rops (lw C) (lw L) = 0 /\ dot3 Rops (lw C) (lw M) = 0 /\
   (on L x -> dot3 Rops (vsub3 Rops x (tr_pp Rops C)) (cross3 Rops (lw L) (lw C)) = 0) /\
   (on M y -> dot3 Rops (vsub3 Rops y (tr_pp Rops C)) (cross3 Rops (lw M) (lw C)) = 0).
 Proof.
-  intros L M x y P0 HL HM. destruct_tuples. unfold cp_path in *. unf2.
+  intros L M x y N1 N2 P0 HL HM. destruct_tuples. unfold cp_path in *. unf2.
   abs_sqrt. nn_nz. split; [| split; [tuple_eq ltac:(ring)| split; [ring | split; [ring | split ]]]].
   - abs_inv. nsz.
   - intros Hx. injection Hx; intros; subst. abs_inv. nsz.
@@ -190,11 +220,13 @@ Qed.
 Print Assumptions C19_distance_reference.
 
 (* full statement (repaired by /repo 77e7e2a), skew branch: the distance of elementary geometry *)
-Theorem C19_distance_skew : forall L M : V6 R, dist_path L M -> tr_distance Rops L M = dist_ref L M.
+Theorem C19_distance_skew : forall L M : V6 R, normsq3 Rops (lw L) <> 0 -> normsq3 Rops (lw M) <> 0 ->
+  dist_path L M -> tr_distance Rops L M = dist_ref L M.
 Proof.
-  intros L M (P0 & P1). destruct_tuples. unfold dist_path, dist_ref, recip_ref in *. unf2.
+  intros L M N1 N2 (P0 & P1). destruct_tuples. unfold dist_path, dist_ref, recip_ref in *. unf2.
   match goal with |- 1 / sqrt ?a * Rabs ?e = Rabs ?f / sqrt ?b =>
-    replace f with e by ring; replace b with a by ring; assert (0 < sqrt a) by lra; field; lra end.
+    replace f with e by ring; replace b with a by ring; set (A := Rabs e) in *; clear P1 end.
+  abs_sqrt. nn_nz. fld.
 Qed.
 Print Assumptions C19_distance_skew.
 
@@ -249,15 +281,21 @@ Proof.
       assert (HS : sqrt W * sqrt W = W) by (apply sqrt_sqrt; lra);
       assert (0 < sqrt W) by (apply sqrt_lt_R0; exact HWp);
       set (sw := sqrt W) in *; set (sb := sqrt B) in *; rewrite <- HS; field; lra end.
-  - match goal with |- 0 < _ + -1 * sqrt ?e => replace e with 0 by ring; rewrite sqrt_0; lra end.
+  - match goal with |- 0 < -1 * sqrt ?e + ?c * sqrt ?W * sqrt ?W2 =>
+      replace e with 0 by ring; rewrite sqrt_0;
+      assert (HWp : 0 < W) by (assert (0 <= W) by sq_nonneg; lra);
+      assert (HW2 : 0 < W2) by (replace W2 with (k * k * W) by ring; assert (0 < k * k) by nra; apply Rmult_lt_0_compat; assumption);
+      pose proof (sqrt_lt_R0 W HWp); pose proof (sqrt_lt_R0 W2 HW2);
+      assert (0 < sqrt W * sqrt W2) by (apply Rmult_lt_0_compat; assumption); nra end.
 Qed.
 Print Assumptions C19_distance_parallel.
 
 (* ---------- intersection point of two lines (repaired by /repo 5acc1ad) ---------- *)
-Theorem C19_intersects_point : forall (L M : V6 R) (x : V3 R), pc_intersects_0 Rops L M <= 0 ->
+Theorem C19_intersects_point : forall (L M : V6 R) (x : V3 R), normsq3 Rops (lw L) <> 0 -> normsq3 Rops (lw M) <> 0 ->
+  pc_intersects_0 Rops L M <= 0 ->
   on L x -> on M x -> tr_intersects Rops L M = x /\ 0 < pc_intersects_1 Rops L M.
 Proof.
-  intros L M x P0 HL HM. destruct_tuples. unf2. injection HL; intros; subst. injection HM; intros; subst.
+  intros L M x N1 N2 P0 HL HM. destruct_tuples. unf2. injection HL; intros; subst. injection HM; intros; subst.
   split.
   - abs_sqrt. nn_nz. abs_inv. tuple_eq ltac:(nsz).
   - match goal with |- context [Rabs ?e] => replace e with 0 by ring end. rewrite Rabs_R0. lra.
